@@ -43,62 +43,45 @@ Qed.
 
 (** * C10: the drain loop of [finalize] *)
 
-Theorem finalize_terminates : forall ps l, pc_inv ps l -> ls_ok l ->
+Theorem finalize_terminates : forall ps l, pc_inv ps l -> ls_ok l -> ps_finalized ps = false ->
   exists w1, snd (wrun_spec (drain_buffer (S (length (w_buffer (ps_w ps)))) (ps_w ps)) l) = Ok w1 /\
              w_buffer w1 = [].
 Proof.
-  intros ps l (_ & _ & [[Hlive _]|[Hdone _]]) [Hl _].
-  - destruct Hlive as (mpp & d0 & pts & lay & d & Hmpp & Hty & Hinv & Hlen & _).
-    destruct (drain_buffer_run (w_proto (ps_w ps)) mpp d0 pts lay (ps_w ps) d Hty Hmpp Hinv) as
-      (lay1 & w1 & d1 & Hrun1 & _ & Hb1); [lia|].
-    destruct (wpure_drain (S (length (w_buffer (ps_w ps)))) (ps_w ps)) as [r Hr].
-    destruct (wpure_sound _ r (lend d) Hr) as (G1 & _); [unfold lend; cbn [ls_pos ls_data]; lia|].
-    rewrite Hrun1 in G1. cbn [snd] in G1. subst r.
-    destruct (wpure_sound _ _ l Hr Hl) as (R1 & _). exists w1. split; [exact R1|exact Hb1].
-  - destruct Hdone as (Hb & _). rewrite Hb. cbn [length drain_buffer]. rewrite Hb.
-    exists (ps_w ps). split; [reflexivity|exact Hb].
+  intros ps l (_ & [Hf|(_ & Hlive & _)]) [Hl _] Hnf; [congruence|].
+  destruct Hlive as (mpp & d0 & pts & lay & d & Hmpp & Hty & Hinv & Hlen & _).
+  destruct (drain_buffer_run (w_proto (ps_w ps)) mpp d0 pts lay (ps_w ps) d Hty Hmpp Hinv) as
+    (lay1 & w1 & d1 & Hrun1 & _ & Hb1); [lia|].
+  destruct (wpure_drain (S (length (w_buffer (ps_w ps)))) (ps_w ps)) as [r Hr].
+  destruct (wpure_sound _ r (lend d) Hr) as (G1 & _); [unfold lend; cbn [ls_pos ls_data]; lia|].
+  rewrite Hrun1 in G1. cbn [snd] in G1. subst r.
+  destruct (wpure_sound _ _ l Hr Hl) as (R1 & _). exists w1. split; [exact R1|exact Hb1].
 Qed.
 
 (** * C10: a call that returns [Err] is a no-op *)
 
-Theorem err_is_noop : forall st l c l' st' k, ws_inv st l -> call_wf c -> st_idx_typed st ->
+Theorem err_is_noop : forall st l c l' st' k, ws_inv st l -> call_wf c ->
   wrun_spec (step st c) l = (l', Ok (st', CrErr k)) -> st' = st /\ l' = l.
 Proof.
-  intros st l c l' st' k Hinv Hwf Hit Hrun.
+  intros st l c l' st' k Hinv Hwf Hrun.
   destruct (wapi_step_ok gen_xml lib_version gen_xml_total st l c Hinv Hwf) as (l1 & st1 & r & Hrun1 & _ & _ & Herr).
-  rewrite Hrun in Hrun1. inversion Hrun1; subst. apply (Herr k eq_refl Hit).
+  rewrite Hrun in Hrun1. inversion Hrun1; subst. apply (Herr k eq_refl).
 Qed.
 
-(** Without the side condition the statement is false: a prototype with two
-    [RowIndex] records of which the second is not an integer passes the rule
-    check (which looks at the first record of a name); then every [add_point]
-    fails with [Internal] in the bounds loop after the Cartesian bounds and
-    the first row bound have already been updated. *)
-Definition refuted_proto : list record :=
+(** Remark.  Before the repair 8f31314 this theorem needed the side condition that every
+    record feeding an index bound is integer-typed, and was refuted without it by a
+    prototype with two [RowIndex] records of which the second is a double: the rule check
+    looked at the first record of a name, the bounds loop at every record, so [add_point]
+    failed with [Internal] after the Cartesian bounds had been updated.  The prototype is
+    now rejected; the former witness as a regression example: *)
+Definition former_witness_proto : list record :=
   [mkRecord CartesianX (DDouble None None); mkRecord CartesianY (DDouble None None);
    mkRecord CartesianZ (DDouble None None); mkRecord RowIndex (DInteger 0 9);
    mkRecord RowIndex (DDouble None None)].
-Definition refuted_point : list rvalue :=
-  [VDouble 0x3ff0000000000000; VDouble 0x4000000000000000; VDouble 0x4008000000000000; VInteger 3; VDouble 0].
 
-Definition x_bound_set (st : wstate) : bool :=
-  match ws_sub st with
-  | SubPc ps => match rb_cart (ps_bounds ps) with
-                | Some c => match mm_lo (cr_x c) with Some _ => true | None => false end
-                | None => false
-                end
-  | _ => false
-  end.
-
-Theorem err_is_noop_refuted :
-  exists st l st' l',
-    wrun_spec (run ws_init [NewWriter [103]; AddPointcloud [112] refuted_proto]) ls_init = (l, Ok (st, [CrOk; CrOk])) /\
-    wrun_spec (step st (PcAddPoint refuted_point)) l = (l', Ok (st', CrErr EInternal)) /\
-    x_bound_set st = false /\ x_bound_set st' = true.
-Proof.
-  eexists. eexists. eexists. eexists.
-  split; [vm_compute; reflexivity|]. split; [vm_compute; reflexivity|]. split; vm_compute; reflexivity.
-Qed.
+Example former_witness_rejected :
+  exists l st, wrun_spec (run ws_init [NewWriter [103]; AddPointcloud [112] former_witness_proto]) ls_init
+               = (l, Ok (st, [CrOk; CrErr EInvalid])) /\ ws_sub st = SubNone.
+Proof. eexists. eexists. split; vm_compute; reflexivity. Qed.
 
 (** * C10: an accepted call is representable *)
 
@@ -120,64 +103,98 @@ Qed.
 (** what the documentation lets a call accept, in the state it is made in *)
 Definition representable_call (st : wstate) (c : wcall) : Prop :=
   match ws_sub st, c with
-  | SubNone, AddPointcloud _ proto => representable_prototype (ws_exts st) proto
+  | SubNone, AddPointcloud _ proto => ws_finalized st = false /\ representable_prototype (ws_exts st) proto
+  | SubNone, AddBlob _ | SubNone, AddImage _ | SubNone, Finalize => ws_finalized st = false
   | SubNone, RegisterExtension ns url =>
-      name_wf ns /\ name_start_ok ns /\ url <> URL_XML /\ url <> URL_XMLNS /\
+      name_wf ns /\ name_start_ok ns /\ url <> URL_XML /\ url <> URL_XMLNS /\ url <> [] /\ url <> URL_E57 /\
       ~ registered (ws_exts st) ns /\ ~ (exists ns', In (mkExtension ns' url) (ws_exts st))
-  | SubPc ps, PcAddPoint vs => representable_point (ps_proto ps) vs
-  | SubIm im, ImAddPinhole _ _ _ _ | SubIm im, ImAddSpherical _ _ _ _
-  | SubIm im, ImAddCylindrical _ _ _ _ => im_projection im = None
-  | SubIm im, ImFinalize => im_visual_reference im <> None \/ im_projection im <> None
+  | SubPc ps, PcAddPoint vs => ps_finalized ps = false /\ representable_point (ps_proto ps) vs
+  | SubPc ps, PcFinalize => ps_finalized ps = false
+  | SubIm im fin, ImAddVisualReference _ _ _ _ _ => fin = false
+  | SubIm im fin, ImAddPinhole _ _ _ _ | SubIm im fin, ImAddSpherical _ _ _ _
+  | SubIm im fin, ImAddCylindrical _ _ _ _ => fin = false /\ im_projection im = None
+  | SubIm im fin, ImFinalize => fin = false /\ (im_visual_reference im <> None \/ im_projection im <> None)
   | _, _ => True
   end.
 
 Lemma run_pair_inj {A} (l l' : lstream) (a a' : A) : (l, @Ok A a) = (l', Ok a') -> a = a'.
 Proof. intros H. inversion H. reflexivity. Qed.
 
-Theorem accepted_is_representable : forall st l c l' st', ws_inv st l -> ws_open st = true -> call_wf c ->
-  wrun_spec (step st c) l = (l', Ok (st', CrOk)) -> representable_call st c.
+Theorem accepted_is_representable : forall st l c l' st' r, ws_inv st l -> ws_open st = true -> call_wf c ->
+  wrun_spec (step st c) l = (l', Ok (st', r)) -> (forall k, r <> CrErr k) -> r <> CrNoCompile ->
+  representable_call st c.
 Proof.
-  intros st l c l' st' Hinv Hopen Hwf Hrun. pose proof Hinv as [Hok Hs].
+  intros st l c l' st' r Hinv Hopen Hwf Hrun Hne Hnc. pose proof Hinv as [Hok Hs].
+  assert (Bad : forall k, (l, @Ok (wstate * call_result) (st, CrErr k)) = (l', Ok (st', r)) -> False).
+  { intros k H. inversion H; subst. apply (Hne k). reflexivity. }
   unfold representable_call. unfold wapi_step in Hrun. rewrite Hopen in Hrun. cbn [negb] in Hrun.
-  destruct (ws_sub st) as [|ps|im] eqn:Esub; destruct c; try exact I.
+  destruct (ws_sub st) as [|ps|im fin] eqn:Esub; destruct c; try exact I.
   - (* RegisterExtension *)
     destruct (validate_name ns >> validate_name_start ns >> validate_url url) as [[]|k|] eqn:Ev;
-      [|cbn [wret wrun_spec] in Hrun; inversion Hrun|cbn [wrun_spec] in Hrun; inversion Hrun].
+      [|cbn [wret wrun_spec] in Hrun; exfalso; apply (Bad _ Hrun)|cbn [wrun_spec] in Hrun; inversion Hrun].
     apply seq_res_ok in Ev as [E1 Ev]. apply seq_res_ok in Ev as [E2 E3].
-    destruct (url_registered (ws_exts st) url) eqn:Eu; [cbn [wret wrun_spec] in Hrun; inversion Hrun|].
-    destruct (ext_registered (ws_exts st) ns) eqn:En; [cbn [wret wrun_spec] in Hrun; inversion Hrun|].
+    destruct (url_registered (ws_exts st) url) eqn:Eu; [cbn [wret wrun_spec] in Hrun; exfalso; apply (Bad _ Hrun)|].
+    destruct (ext_registered (ws_exts st) ns) eqn:En; [cbn [wret wrun_spec] in Hrun; exfalso; apply (Bad _ Hrun)|].
     split; [apply validate_name_ok; exact E1|]. split; [apply validate_name_start_ok; exact E2|].
     unfold validate_url in E3.
     destruct (xs_eqb url URL_XML) eqn:X1; [discriminate|]. destruct (xs_eqb url URL_XMLNS) eqn:X2; [discriminate|].
-    split; [intros ->; rewrite (proj2 (xs_eqb_eq URL_XML URL_XML) eq_refl) in X1; discriminate|].
-    split; [intros ->; rewrite (proj2 (xs_eqb_eq URL_XMLNS URL_XMLNS) eq_refl) in X2; discriminate|].
+    cbn [orb] in E3. destruct url as [|u0 ur]; [discriminate|].
+    destruct (xs_eqb (u0 :: ur) URL_E57) eqn:X3; [discriminate|].
+    split; [intros Hq; rewrite Hq, (proj2 (xs_eqb_eq URL_XML URL_XML) eq_refl) in X1; discriminate|].
+    split; [intros Hq; rewrite Hq, (proj2 (xs_eqb_eq URL_XMLNS URL_XMLNS) eq_refl) in X2; discriminate|].
+    split; [discriminate|].
+    split; [intros Hq; rewrite Hq, (proj2 (xs_eqb_eq URL_E57 URL_E57) eq_refl) in X3; discriminate|].
     split; [apply ext_registered_false; exact En|apply url_registered_false; exact Eu].
+  - (* AddBlob *)
+    destruct (ws_finalized st); [cbn [wret wrun_spec] in Hrun; exfalso; apply (Bad _ Hrun)|reflexivity].
   - (* AddPointcloud *)
-    rewrite run_bind in Hrun.
+    destruct (ws_finalized st); [cbn [wret wrun_spec] in Hrun; exfalso; apply (Bad _ Hrun)|].
+    split; [reflexivity|]. rewrite run_bind in Hrun.
     destruct (pc_new_step (ws_exts st) guid proto l Hok Hwf) as [(k & H1)|(l1 & ps & H1 & _ & _ & _ & _ & He & Hv & (mpp & Hm) & _)];
-      rewrite H1 in Hrun; cbn [fst snd wret wrun_spec] in Hrun; [inversion Hrun|].
+      rewrite H1 in Hrun; cbn [fst snd wret wrun_spec] in Hrun; [exfalso; apply (Bad _ Hrun)|].
     pose proof (validate_prototype_ok proto Hv) as R. unfold rules_part in R.
     unfold representable_prototype.
-    destruct R as (R1 & R2 & R3 & R4 & R5 & R6 & R7 & R8 & R9 & R10 & R11 & R12 & R13 & R14 & R15 & R16 & R17).
+    destruct R as (R1 & R2 & R3 & R4 & R5 & R6 & R7 & R8 & R9 & R10 & R11 & R12 & R13 & R14 & R15 & R16 & R17 & R18 & _).
     repeat (split; [assumption|]).
     split; [apply (ext_validate_prototype_ok proto (ws_exts st) He)|apply (capacity_fits proto mpp Hm)].
+  - (* AddImage *)
+    destruct (ws_finalized st); [cbn [wret wrun_spec] in Hrun; exfalso; apply (Bad _ Hrun)|reflexivity].
+  - (* Finalize *)
+    destruct (ws_finalized st); [cbn [wret wrun_spec] in Hrun; exfalso; apply (Bad _ Hrun)|reflexivity].
   - (* PcAddPoint *)
     rewrite run_bind in Hrun.
     destruct (wrun_spec (pc_add_point values ps) l) as [l1 [[ps1 r1]|k|]] eqn:E1; cbn [fst snd wret wrun_spec] in Hrun;
       try (inversion Hrun; fail).
-    assert (r1 = CrOk) by (inversion Hrun; reflexivity). subst r1.
-    destruct (pc_add_point_ok_inv values ps l l1 ps1 E1) as (Hv & _).
-    destruct Hs as (Hp & _). rewrite Hp in Hv. apply values_ok_representable. exact Hv.
-  - (* pinhole *)
-    unfold im_add_projection in Hrun. unfold has_projection in Hrun.
-    destruct (im_projection im); [cbn [wret wrun_spec] in Hrun; inversion Hrun|reflexivity].
+    assert (r1 = r) by (inversion Hrun; reflexivity). subst r1.
+    assert (r = CrOk).
+    { clear - E1 Hne. unfold pc_add_point in E1.
+      destruct (ps_finalized ps); [cbn in E1; inversion E1; subst; exfalso; apply (Hne EInvalid); reflexivity|].
+      destruct (negb _); [cbn in E1; inversion E1; subst; exfalso; apply (Hne EInvalid); reflexivity|].
+      destruct (update_bounds _ _ _) as [b1 [[]|k|]]; [|cbn in E1; inversion E1; subst; exfalso; apply (Hne k); reflexivity|cbn in E1; inversion E1].
+      rewrite run_bind, wrun_spec_wtry in E1.
+      destruct (snd (wrun_spec (pcw_add_point values (ps_w ps)) l)); cbn [fst snd wret wrun_spec] in E1; inversion E1; subst;
+        [reflexivity|exfalso; apply (Hne k); reflexivity]. }
+    subst r.
+    destruct (pc_add_point_ok_inv values ps l l1 ps1 E1) as (Hf & Hv & _).
+    split; [exact Hf|]. destruct Hs as (Hp & _). rewrite Hp in Hv. apply values_ok_representable. exact Hv.
+  - (* PcFinalize *)
+    unfold pc_finalize in Hrun. destruct (ps_finalized ps); [|reflexivity].
+    rewrite run_bind in Hrun. cbn [wret wrun_spec fst snd] in Hrun. exfalso. inversion Hrun; subst. apply (Hne EInvalid). reflexivity.
+  - (* visual reference *)
+    destruct fin; [cbn [wret wrun_spec] in Hrun; exfalso; apply (Bad _ Hrun)|reflexivity].
   - unfold im_add_projection in Hrun. unfold has_projection in Hrun.
-    destruct (im_projection im); [cbn [wret wrun_spec] in Hrun; inversion Hrun|reflexivity].
+    destruct fin; [cbn [wret wrun_spec] in Hrun; exfalso; apply (Bad _ Hrun)|].
+    destruct (im_projection im); [cbn [wret wrun_spec] in Hrun; exfalso; apply (Bad _ Hrun)|split; reflexivity].
   - unfold im_add_projection in Hrun. unfold has_projection in Hrun.
-    destruct (im_projection im); [cbn [wret wrun_spec] in Hrun; inversion Hrun|reflexivity].
+    destruct fin; [cbn [wret wrun_spec] in Hrun; exfalso; apply (Bad _ Hrun)|].
+    destruct (im_projection im); [cbn [wret wrun_spec] in Hrun; exfalso; apply (Bad _ Hrun)|split; reflexivity].
+  - unfold im_add_projection in Hrun. unfold has_projection in Hrun.
+    destruct fin; [cbn [wret wrun_spec] in Hrun; exfalso; apply (Bad _ Hrun)|].
+    destruct (im_projection im); [cbn [wret wrun_spec] in Hrun; exfalso; apply (Bad _ Hrun)|split; reflexivity].
   - (* ImFinalize *)
+    destruct fin; [cbn [wret wrun_spec] in Hrun; exfalso; apply (Bad _ Hrun)|]. split; [reflexivity|].
     destruct (im_visual_reference im), (im_projection im); cbn [wret wrun_spec] in Hrun;
-      try (left; discriminate); try (right; discriminate).
+      try (left; discriminate); try (right; discriminate). exfalso. apply (Bad _ Hrun).
 Qed.
 
 (** * C14: one point cloud session *)
@@ -211,13 +228,14 @@ Lemma body_run : forall body st l l' st' rs ps,
     points_fold (ps_proto ps) (body_points body) (ps_bounds ps) (ps_bounds ps') /\
     ps_desc ps' = body_desc body (ps_desc ps) /\
     w_point_count (ps_w ps') = w_point_count (ps_w ps) + len (body_points body) /\
-    w_section_offset (ps_w ps') = w_section_offset (ps_w ps).
+    w_section_offset (ps_w ps') = w_section_offset (ps_w ps) /\
+    ps_finalized ps' = ps_finalized ps.
 Proof.
   induction body as [|c body IH]; intros st l l' st' rs ps Hinv Hopen Hsub Hwf Hbody Hrun Hok.
   - cbn [wapi_run wret wrun_spec] in Hrun. inversion Hrun; subst.
     exists ps. split; [exact Hsub|]. split; [unfold same_top; auto|]. split; [exact Hinv|].
     split; [reflexivity|]. split; [constructor|]. split; [reflexivity|].
-    cbn [body_points]. rewrite pc_len_nil. split; [lia|reflexivity].
+    cbn [body_points]. rewrite pc_len_nil. split; [lia|]. split; reflexivity.
   - inversion Hwf as [|? ? Hc Hwf']; subst. inversion Hbody as [|? ? Hb Hbody']; subst.
     cbn [wapi_run] in Hrun. rewrite run_bind in Hrun.
     destruct (wapi_step_ok gen_xml lib_version gen_xml_total st l c Hinv Hc) as (l1 & st1 & x & Hrun1 & Hinv1 & _ & _).
@@ -230,31 +248,29 @@ Proof.
     destruct c; try (destruct Hb; fail).
     + (* PcSet *)
       cbn [wret wrun_spec] in Hrun1. inversion Hrun1; subst. clear Hrun1.
-      destruct (IH _ _ _ _ _ _ Hinv1 Hopen eq_refl Hwf' Hbody' E2 Hok') as (ps' & H1 & H2 & H3 & H4 & H5 & H6 & H7 & H8).
+      destruct (IH _ _ _ _ _ _ Hinv1 Hopen eq_refl Hwf' Hbody' E2 Hok') as (ps' & H1 & H2 & H3 & H4 & H5 & H6 & H7 & H8 & H9).
       exists ps'. split; [exact H1|]. split; [exact H2|]. split; [exact H3|]. split; [exact H4|].
-      split; [exact H5|]. split; [exact H6|]. split; [exact H7|exact H8].
+      split; [exact H5|]. split; [exact H6|]. split; [exact H7|]. split; [exact H8|exact H9].
     + (* PcAddPoint *)
       rewrite run_bind in Hrun1.
       destruct (wrun_spec (pc_add_point values ps) l) as [la [[ps1 r1]|k|]] eqn:E1; cbn [fst snd wret wrun_spec] in Hrun1;
         try (inversion Hrun1; fail).
       inversion Hrun1; subst. clear Hrun1.
-      destruct (pc_add_point_ok_inv values ps l l1 ps1 E1) as (Hv & b1 & w' & Hub & Hps1 & Hrunw).
-      destruct Hs as (Hp & Hco & Hmode).
+      destruct (pc_add_point_ok_inv values ps l l1 ps1 E1) as (Hfin & Hv & b1 & w' & Hub & Hps1 & Hrunw).
+      destruct Hs as (Hp & Hmode).
       assert (Hlen : length values = length (ps_proto ps)).
       { rewrite (values_ok_length _ _ Hv), Hp. unfold proto_dtypes. apply map_length. }
       assert (Hcnt : w_point_count w' = w_point_count (ps_w ps) + 1 /\ w_section_offset w' = w_section_offset (ps_w ps)).
-      { destruct Hmode as [[Hlive _]|[_ Hbn]].
-        - destruct (add_point_live values (ps_w ps) l Hlive Hlok Hv Hc) as (lx & wx & Hrx & _ & _ & _ & _ & Hso & Hcn).
-          rewrite Hrunw in Hrx. inversion Hrx; subst. split; [exact Hcn|exact Hso].
-        - exfalso. rewrite Hbn in Hub.
-          rewrite (update_bounds_done _ _ Hlen (coordinates_axis _ Hco)) in Hub. discriminate. }
+      { destruct Hmode as [Hf|(_ & Hlive & _)]; [congruence|].
+        destruct (add_point_live values (ps_w ps) l Hlive Hlok Hv Hc) as (lx & wx & Hrx & _ & _ & _ & _ & Hso & Hcn).
+        rewrite Hrunw in Hrx. inversion Hrx; subst. split; [exact Hcn|exact Hso]. }
       destruct Hcnt as [Hcnt Hso].
       assert (Hsub1 : ws_sub (set_sub st (SubPc ps1)) = SubPc ps1) by reflexivity.
-      destruct (IH _ _ _ _ _ _ Hinv1 Hopen Hsub1 Hwf' Hbody' E2 Hok') as (ps' & H1 & H2 & H3 & H4 & H5 & H6 & H7 & H8).
-      subst ps1. cbn [ps_proto ps_bounds ps_desc ps_w] in *.
+      destruct (IH _ _ _ _ _ _ Hinv1 Hopen Hsub1 Hwf' Hbody' E2 Hok') as (ps' & H1 & H2 & H3 & H4 & H5 & H6 & H7 & H8 & H9).
+      subst ps1. cbn [ps_proto ps_bounds ps_desc ps_w ps_finalized] in *.
       exists ps'. split; [exact H1|]. split; [exact H2|]. split; [exact H3|]. split; [exact H4|].
       split; [econstructor; [exact Hlen|exact Hub|exact H5]|]. split; [exact H6|].
-      cbn [body_points]. rewrite pc_len_cons. split; [lia|congruence].
+      cbn [body_points]. rewrite pc_len_cons. split; [lia|]. split; congruence.
 Qed.
 
 (** The descriptor pushed by [finalize] after [add_pointcloud guid proto],
@@ -275,24 +291,26 @@ Proof.
   intros st l guid proto body l' st' rs Hinv Hopen Hsub Hi64 Hwf Hbody Hrun Hok.
   pose proof Hinv as [Hlok _].
   cbn [wapi_run] in Hrun. rewrite run_bind in Hrun.
+  assert (Hfirst : forall k l1, wrun_spec (step st (AddPointcloud guid proto)) l = (l1, Ok (st, CrErr k)) -> False).
+  { intros k l1 H1. rewrite H1 in Hrun. cbn [fst snd] in Hrun. rewrite run_bind in Hrun.
+    destruct (wrun_spec (run st (body ++ [PcFinalize])) l1) as [l2 [[st2 xs]|k2|]]; cbn [fst snd wret wrun_spec] in Hrun;
+      try (inversion Hrun; fail).
+    inversion Hrun; subst. inversion Hok as [|? ? Hx _]. discriminate. }
   assert (Hstep : exists l1 ps, wrun_spec (step st (AddPointcloud guid proto)) l = (l1, Ok (set_sub st (SubPc ps), CrOk)) /\
             pc_inv ps l1 /\ ls_ok l1 /\ ps_proto ps = proto /\ validate_prototype proto = Ok tt /\
             ps_bounds ps = bounds_new proto /\
             (exists cl, default_color_limits proto = Ok cl /\
                         ps_desc ps = desc_new guid proto (default_intensity_limits proto) cl) /\
-            w_point_count (ps_w ps) = 0).
-  { unfold wapi_step. rewrite Hopen, Hsub. cbn [negb]. rewrite run_bind.
+            w_point_count (ps_w ps) = 0 /\ ps_finalized ps = false).
+  { unfold wapi_step in Hfirst |- *. rewrite Hopen, Hsub in Hfirst |- *. cbn [negb] in Hfirst |- *.
+    destruct (ws_finalized st); [exfalso; apply (Hfirst EInvalid l); reflexivity|].
+    rewrite run_bind in Hfirst |- *.
     destruct (pc_new_step (ws_exts st) guid proto l Hlok Hi64)
-      as [(k & H1)|(l1 & ps & H1 & Hpi & Hok1 & _ & Hpp & _ & Hv & _ & Hb & Hd & Hc)].
-    - exfalso. unfold wapi_step in Hrun. rewrite Hopen, Hsub in Hrun. cbn [negb] in Hrun.
-      rewrite run_bind, H1 in Hrun. cbn [fst snd wret wrun_spec] in Hrun.
-      rewrite run_bind in Hrun.
-      destruct (wrun_spec (run st (body ++ [PcFinalize])) l) as [l2 [[st2 xs]|k2|]]; cbn [fst snd wret wrun_spec] in Hrun;
-        try (inversion Hrun; fail).
-      inversion Hrun; subst. inversion Hok as [|? ? Hx _]. discriminate.
+      as [(k & H1)|(l1 & ps & H1 & Hpi & Hok1 & _ & Hpp & _ & Hv & _ & Hb & Hd & Hc & Hf)].
+    - exfalso. apply (Hfirst k l). rewrite H1. reflexivity.
     - rewrite H1. cbn [fst snd wret wrun_spec]. exists l1, ps. split; [reflexivity|].
-      repeat (split; [assumption|]). exact Hc. }
-  destruct Hstep as (l1 & ps & Hs1 & Hpi & Hok1 & Hpp & Hv & Hb0 & (cl & Hcl & Hd0) & Hc0).
+      repeat (split; [assumption|]). exact Hf. }
+  destruct Hstep as (l1 & ps & Hs1 & Hpi & Hok1 & Hpp & Hv & Hb0 & (cl & Hcl & Hd0) & Hc0 & Hf0).
   rewrite Hs1 in Hrun. cbn [fst snd] in Hrun. rewrite run_bind in Hrun.
   set (st1 := set_sub st (SubPc ps)) in *.
   assert (Hinv1 : ws_inv st1 l1) by (split; [exact Hok1|exact Hpi]).
@@ -324,13 +342,13 @@ Proof.
   inversion Hrun; subst l' st' rs. clear Hrun.
   apply Forall_inv_tail in Hok. apply Forall_app in Hok as [Hok2 Hok3].
   destruct (body_run body st1 l1 l2 st2 rs2 ps Hinv1 Hopen eq_refl Hwf Hbody E2 Hok2)
-    as (ps2 & Hsub2 & (Ho2 & _ & _ & Hpcs2 & _) & Hinv2 & Hp2 & Hfold & Hd2 & Hc2 & _).
+    as (ps2 & Hsub2 & (Ho2 & _ & _ & Hpcs2 & _) & Hinv2 & Hp2 & Hfold & Hd2 & Hc2 & _ & Hf2).
   (* the finalize step *)
   cbn [wapi_run] in E3. rewrite run_bind in E3.
   unfold wapi_step in E3. rewrite Ho2 in E3. unfold st1 in E3. cbn [set_sub ws_open] in E3.
   rewrite Hopen, Hsub2 in E3. cbn [negb] in E3.
   destruct Hinv2 as [Hok2' Hpi2]. rewrite Hsub2 in Hpi2.
-  destruct (pc_finalize_step ps2 l2 Hpi2 Hok2') as (l4 & ps4 & d & Hrf & _ & _ & _ & Hd).
+  destruct (pc_finalize_step ps2 l2 Hpi2 Hok2') as [(Hff & _)|(_ & l4 & ps4 & d & Hrf & _ & _ & _ & Hd)]; [congruence|].
   rewrite run_bind, Hrf in E3. cbn [fst snd wret wrun_spec] in E3. inversion E3; subst l3 st3 rs3. clear E3.
   cbn [ws_pcs]. exists d, (ps_bounds ps2), cl, (w_section_offset (ps_w ps2)).
   split; [rewrite Hpcs2; reflexivity|]. split; [exact Hv|]. split; [exact Hcl|].
@@ -553,11 +571,11 @@ Definition ex_calls : list wcall :=
    PcAddPoint [D1; D2; VScaled 4; VInteger 700; VInteger 0; VInteger 2];      (* row out of range: rejected *)
    PcAddPoint [Dm3; D1; VScaled (-10); VInteger 3; VInteger 5; VInteger 0];
    PcAddPoint [D2; Dm3; VSingle 0; VInteger 3; VInteger 5; VInteger 0];        (* mistyped z: rejected *)
-   PcFinalize; PcDrop; Finalize; Finalize].
+   PcFinalize; PcDrop; Finalize; Finalize].                                    (* second finalize: rejected *)
 
 Example ex_results :
   exists l st, wrun_spec (wapi_run ex_gen [] ws_init ex_calls) ls_init =
-    (l, Ok (st, [CrOk; CrOk; CrOk; CrErr EInvalid; CrOk; CrErr EInvalid; CrOk; CrOk; CrOk; CrOk])) /\
+    (l, Ok (st, [CrOk; CrOk; CrOk; CrErr EInvalid; CrOk; CrErr EInvalid; CrOk; CrOk; CrOk; CrErr EInvalid])) /\
     match ws_pcs st with
     | [pc] =>
         pc_records pc = 2 /\
